@@ -5,7 +5,7 @@ from vlib.core import Standard, Case, standard_check
 from props import adv_common as A
 
 META = dict(
-    text="Coq model of advertising.hpp's request checks as pure functions over the byte list of the received PDU, for both PDU layouts: theorems 'handle_adv_receive reports a connection request iff the PDU is a CONNECT_IND whose in-memory size and length field are 34, AdvA / RxAdd are the own address and address type, the advertising type is connectable, for directed advertising InitA / TxAdd are the configured target, and the initiator (InitA, TxAdd) passes the connection filter', 'the remote address reported is (InitA, TxAdd)', 'scannable and non-connectable advertising never report a connection request', 'is_valid_scan_request is true iff SCAN_REQ, sizes 12, AdvA / RxAdd match', all for every byte list of any length; plus, for every configuration and every operation sequence of any length (start, timeouts, received PDUs, change of advertising type, change of the directed address, ...), the executable C25 monitor accepts the model's trace (a PDU is accepted only if, and rejected only if, the specification says so for the advertising type of the last advertising PDU). The model is tied to the real handle_adv_receive of the mixin classes and to the real static predicates by differential runs on generated PDUs for default_pdu_layout and the nRF encrypted layout; the monitor judges the implementation's answers.",
+    text="Coq model of advertising.hpp's request checks as pure functions over the byte list of the received PDU, for both PDU layouts: theorems 'handle_adv_receive reports a connection request iff the PDU is a CONNECT_IND whose in-memory size and length field are 34, AdvA / RxAdd are the own address and address type, the advertising type is connectable, for directed advertising InitA / TxAdd are the configured target, and the initiator (InitA, TxAdd) passes the connection filter', 'the remote address reported is (InitA, TxAdd)', 'scannable and non-connectable advertising never report a connection request', 'is_valid_scan_request is true iff SCAN_REQ, sizes 12, AdvA / RxAdd match', all for every byte list of any length; plus, for every configuration and every operation sequence of any length (start, timeouts, received PDUs, change of advertising type, change of the directed address, ...), the executable C25 monitor accepts the model's trace (a PDU is accepted only if, and rejected only if, the specification says so for the advertising type on air = the type of the last advertising PDU handed to the radio; change_advertising takes effect with the next PDU). The model is tied to the real handle_adv_receive of the mixin classes and to the real static predicates by differential runs on generated PDUs for default_pdu_layout and the nRF encrypted layout; the monitor judges the implementation's answers.",
     level_note="Only the advertising.hpp part of C25 is claimed. The connection filter (white list) is an oracle here: is_connection_request_in_filter is a parameter of the model and a scripted set in the harness (white_list.hpp is C26). NOT covered, left to the LL component: link_layer::adv_received's further conditions for entering the connecting state (channel map / hop increment via channel_map::reset, timing parameters), and what it does when they fail. Scan requests are answered by the radio bindings (nRF51/52 ISR, test radio), not by the link layer: advertising.hpp's is_valid_scan_request is called by nothing in the library and on the unrepaired tree cannot even be instantiated; it is modelled and proved, and tied only on a tree where it compiles (branch fix/C25-adv-request-checks). The radios' own scan request checks are not covered. Trusted: Coq kernel, extraction, OCaml driver, C++ harness + ASan/UBSan (every received PDU is an exactly sized heap block), the stub link layer standing for link_layer<>, the runner. Repaired on fix/C25-adv-request-checks: directed advertising failed the layout's assert (read the header beyond the PDU with NDEBUG) on received PDUs shorter than a header.",
     design_ref="DESIGN.md section 6 C25, docs/C25.md",
     technique="Coq pure-function model + iff theorems over all byte lists; invariant proof against an executable spec monitor; extracted model vs C++ differential correspondence")
@@ -88,6 +88,9 @@ def gen_case(rng, cfg, n, own, filt, scan_ok):
     while len(ops) < n:
         r = rng.random()
         if r < 0.70 and sim.pending > 0:
+            if sim.multi and rng.random() < 0.3:
+                # change_advertising<>() between the PDU on air and the request that answers it
+                emit("chg %d" % rng.randrange(len(sim.types)))
             p = gen_pdu(rng, layout, own, target, peers)
             if predicts_accept(sim, layout, own, filt, target, p):
                 emit("rx " + A.hexs(p), "rxacc")
@@ -160,6 +163,30 @@ def boundary_cases(cfgs, scan_ok):
     return cases
 
 
+def type_change_cases(cfgs):
+    """multi type advertiser: for every ordered pair (a, b) of its types, a PDU of type a is on air,
+    change_advertising< b >() is called, then a CONNECT_IND arrives (from the directed target / from
+    another initiator / not addressed to us): it must be judged against a, and the next PDU is of type b"""
+    cases = []
+    for cfg in cfgs:
+        w = cfg.split()
+        types = w[0].split(",") if w[0] != "-" else []
+        if len(types) < 2:
+            continue
+        layout = w[4]
+        target, other = A.PEERS[0], A.PEERS[3]
+        pdus = [A.connect_ind(layout, target, A.OWN), A.connect_ind(layout, other, A.OWN),
+                A.connect_ind(layout, target, A.mutate_addr(A.OWN, __import__("random").Random(7)))]
+        for ia in range(len(types)):
+            for ib in range(len(types)):
+                for n, p in enumerate(pdus):
+                    ops = (["daddr " + target] if "d" in types else []) + ["chg %d" % ia, "lstart"]
+                    ops += (["start"] if w[1] == "manual" else [])
+                    ops += ["chg %d" % ib, "rx " + A.hexs(p), "to", "rx " + A.hexs(p)]
+                    cases.append(Case("chg_%s%s_%d" % (types[ia], types[ib], n), ["C25"] + w + [A.OWN, "all"], ops))
+    return cases
+
+
 class C25(Standard):
     component = "Adv"
     harness = "adv_harness.cpp"
@@ -181,7 +208,7 @@ class C25(Standard):
         rng = ctx.rng
         scan_ok = A.scan_predicate_compiles(ctx)
         cfgs = self.cfgs(ctx)
-        cases = boundary_cases(cfgs, scan_ok)
+        cases = boundary_cases(cfgs, scan_ok) + type_change_cases(cfgs)
         per = 50 if not ctx.thorough else 500
         for cfg in cfgs:
             for k in range(per):
